@@ -280,6 +280,7 @@ CHECKS["C14"] = {
     "units": [
         plain("regress", "^TestRegress"),
         plain("short_exhaustive", "^TestDecode(Short|Prefixed)Exhaustive$"),
+        plain("scheme_exhaustive", "^TestDecodeSchemeExhaustive$"),
         rapid("roundtrip", "^TestRoundTrip$", 4000, 600000, qs=4, ts=16),
         rapid("decode", "^TestDecodeTotal$", 4000, 600000, qs=4, ts=16),
         fuzz("fuzz_seeded", "FuzzDecode", "300s"),
